@@ -61,6 +61,10 @@ type Transport struct {
 	Default Response
 	// Budget is the number of requests that are answered; 0 means unlimited.
 	Budget int
+	// BodyChunks, if set, is cycled through by request number: the body of request n
+	// is handed over in pieces of at most BodyChunks[(n-1) % len] bytes (0 = in one
+	// piece). Any split is legal for an io.Reader.
+	BodyChunks []int
 
 	mu        sync.Mutex
 	log       []Request
@@ -111,13 +115,21 @@ func (t *Transport) RoundTrip(req *http.Request) (*http.Response, error) {
 	if resp.Err != nil {
 		return nil, resp.Err
 	}
-	return build(req, resp), nil
+	chunk := 0
+	if len(t.BodyChunks) > 0 {
+		chunk = t.BodyChunks[(n-1)%len(t.BodyChunks)]
+	}
+	return build(req, resp, chunk), nil
 }
 
-func build(req *http.Request, r Response) *http.Response {
+func build(req *http.Request, r Response, chunk int) *http.Response {
 	code := r.Status
 	if code == 0 {
 		code = http.StatusOK
+	}
+	var body io.Reader = bytes.NewReader(r.Body)
+	if chunk > 0 {
+		body = &chunked{data: r.Body, max: chunk}
 	}
 	h := http.Header{}
 	for k, v := range r.Header {
@@ -130,10 +142,32 @@ func build(req *http.Request, r Response) *http.Response {
 		ProtoMajor:    1,
 		ProtoMinor:    1,
 		Header:        h,
-		Body:          io.NopCloser(bytes.NewReader(r.Body)),
+		Body:          io.NopCloser(body),
 		ContentLength: int64(len(r.Body)),
 		Request:       req,
 	}
+}
+
+// chunked hands a body over in pieces of at most max bytes (what a network does).
+type chunked struct {
+	data []byte
+	max  int
+}
+
+func (c *chunked) Read(p []byte) (int, error) {
+	if len(c.data) == 0 {
+		return 0, io.EOF
+	}
+	n := c.max
+	if n > len(p) {
+		n = len(p)
+	}
+	if n > len(c.data) {
+		n = len(c.data)
+	}
+	copy(p, c.data[:n])
+	c.data = c.data[n:]
+	return n, nil
 }
 
 // Client returns a new http.Client that sends everything through t. It has
